@@ -8,6 +8,7 @@ import (
 	"mime"
 	"net/http"
 	"path"
+	"strconv"
 	"strings"
 
 	"github.com/ipfs/go-cid"
@@ -45,9 +46,15 @@ func New(w http.ResponseWriter, r *http.Request, options ...Option) (*ResponseWr
 	for _, accept := range accepts {
 		amts := strings.Split(accept, ",")
 		for _, amt := range amts {
-			mt, _, err := mime.ParseMediaType(amt)
+			mt, params, err := mime.ParseMediaType(amt)
 			if err != nil {
 				return nil, apierror.New(errors.New("invalid Accept header"), http.StatusBadRequest)
+			}
+			// A weight of zero says that the media type is not acceptable.
+			if q, ok := params["q"]; ok {
+				if w, err := strconv.ParseFloat(q, 64); err == nil && w == 0 {
+					continue
+				}
 			}
 			switch mt {
 			case mediaTypeNDJson:
@@ -69,7 +76,7 @@ func New(w http.ResponseWriter, r *http.Request, options ...Option) (*ResponseWr
 			return nil, apierror.New(errors.New("accept header must be specified"), http.StatusBadRequest)
 		}
 	} else if !okJson && !nd {
-		return nil, apierror.New(fmt.Errorf("media type not supported: %s", accepts), http.StatusBadRequest)
+		return nil, apierror.New(fmt.Errorf("media type not supported: %q", accepts), http.StatusBadRequest)
 	}
 
 	var b []byte
